@@ -169,3 +169,91 @@ def eval_term(case, res, expr_canon, fuel=5000):
     cfg = f'(mkcfg {cZ(case.get("max", 10**9))} {cbool(bool(case.get("debug")))} {cbool(case.get("log", True))})'
     return (f'check_eval {cfg} (Z.to_nat {cZ(fuel)}) {scriptgen.expr_coq(expr_canon)} {loc} {cbool(case.get("builtins", True))} '
             f'{world} {expected_coq(res)} {clist([cstr(s) for s in res["log"]])}')
+
+
+# ------------------------------------------------------------------ specs -> python values for the reference interpreter
+import datetime as _dt   # noqa: E402
+
+_EPOCH = _dt.datetime(1, 1, 1)
+
+
+def py_of_spec(spec, pool=None):
+    """a value spec as the python value the reference interpreter works on (aliases through ids)"""
+    pool = {} if pool is None else pool
+    k = spec[0]
+    if k == 'null':
+        return None
+    if k == 'bool':
+        return bool(spec[1])
+    if k == 'int':
+        return int(spec[1])
+    if k == 'flt':
+        return float.fromhex(spec[1])
+    if k == 'str':
+        return spec[1]
+    if k == 'date':
+        return _EPOCH + _dt.timedelta(microseconds=int(spec[1]))
+    if k == 'arr':
+        a = []
+        pool[spec[1]] = a
+        a.extend(py_of_spec(x, pool) for x in spec[2])
+        return a
+    if k == 'obj':
+        o = {}
+        pool[spec[1]] = o
+        for kk, vv in spec[2]:
+            o[kk] = py_of_spec(vv, pool)
+        return o
+    if k == 'ref':
+        return pool[spec[1]]
+    if k == 'regex':
+        return _Regex()
+    raise ValueError(k)
+
+
+class _Regex:
+    """stands for a regex value in the reference (opaque)"""
+
+
+def plain_of_tree(t):
+    """worker result tree -> python value comparable with the reference's values (numbers as float, dates as datetime)"""
+    k = t[0]
+    if k == 'null':
+        return None
+    if k == 'bool':
+        return bool(t[1])
+    if k == 'int':
+        return float(int(t[1])) if not t[1].startswith('huge') else ('hugeint', t[1])
+    if k == 'flt':
+        return float.fromhex(t[1])
+    if k == 'str':
+        return t[1]
+    if k == 'date':
+        return _EPOCH + _dt.timedelta(microseconds=int(t[1]))
+    if k == 'arr':
+        return [plain_of_tree(x) for x in t[1]]
+    if k == 'obj':
+        return {kk: plain_of_tree(vv) for kk, vv in t[1]}
+    return ('opaque', k)
+
+
+def same_value(a, b):
+    """reference value vs implementation value (int/float spelling ignored; functions/regexes opaque)"""
+    import math
+    if isinstance(a, bool) or isinstance(b, bool):
+        return isinstance(a, bool) and isinstance(b, bool) and a == b
+    if isinstance(a, (int, float)) and isinstance(b, (int, float)):
+        if isinstance(a, float) and math.isnan(a) or isinstance(b, float) and math.isnan(b):
+            return isinstance(a, float) and isinstance(b, float) and math.isnan(a) and math.isnan(b)
+        try:
+            return float(a) == float(b) and (a != 0 or math.copysign(1, float(a)) == math.copysign(1, float(b)))
+        except OverflowError:
+            return a == b
+    if isinstance(a, list) and isinstance(b, list):
+        return len(a) == len(b) and all(same_value(x, y) for x, y in zip(a, b))
+    if isinstance(a, dict) and isinstance(b, dict):
+        return a.keys() == b.keys() and all(same_value(a[k], b[k]) for k in a)
+    if isinstance(b, tuple) and b and b[0] == 'opaque':
+        from . import refinterp
+        return (b[1] == 'fun' and refinterp.type_name(a) == 'function') or (b[1] == 'regex' and isinstance(a, _Regex))
+    return type(a) is type(b) and a == b
